@@ -18,6 +18,10 @@ var vfC09Extra = [][2]string{
 	{"GEOMETRYCOLLECTION(POINT(9 9),LINESTRING(0 0,1 1),POLYGON((4 4,6 4,6 6,4 6,4 4)))", "GEOMETRYCOLLECTION(POINT EMPTY,GEOMETRYCOLLECTION(POINT(5 5)))"},
 	{"LINESTRING(0 0,4 0)", "LINESTRING(5 0,9 0)"},                       // collinear, apart
 	{"POLYGON((0 0,4 0,4 4,0 4,0 0))", "POLYGON((5 0,9 0,9 4,5 4,5 0))"}, // apart
+	// five or more rings / members / lines (the R-trees built over them have two levels)
+	{"POLYGON((0 0,20 0,20 20,0 20,0 0),(2 2,8 2,8 8,2 8,2 2),(12 12,18 12,18 18,12 18,12 12),(12 2,18 2,18 8,12 8,12 2),(2 12,8 12,8 18,2 18,2 12))", "MULTIPOINT(5 5,10 10,15 15,15 5,5 15,1 1)"},
+	{"MULTILINESTRING((0 0,0 5),(2 0,2 5),(4 0,4 5),(6 0,6 5),(8 0,8 5),(10 5,10 0))", "LINESTRING(-1 2,12 2)"},
+	{"MULTIPOLYGON(((0 0,2 0,2 2,0 2,0 0)),((4 0,6 0,6 2,4 2,4 0)),((8 0,10 0,10 2,8 2,8 0)),((0 4,2 4,2 6,0 6,0 4)),((4 4,6 4,6 6,4 6,4 4)),((8 4,10 4,10 6,8 6,8 4)))", "POLYGON((1 1,9 1,9 5,1 5,1 1))"},
 	// MultiLineStrings with a closed member before open ones (mod-2 boundary across members)
 	{"MULTILINESTRING((0 0,4 0,4 4,0 4,0 0),(4 4,8 8))", "POINT(8 8)"},
 	{"MULTILINESTRING((0 0,1 1),(5 5,6 5,6 6,5 5),(1 1,2 0))", "MULTIPOINT(1 1,2 0)"},
